@@ -4,6 +4,7 @@ import efreelist
 import elin
 import elock
 import kinds
+import eevent
 
 LEVEL = "E-LOCK + E-FREELIST + E-CACHE.dm + E-LIN/E-WRAP on the parallel code"
 
@@ -26,6 +27,11 @@ def run(ctx):
     elock.run_rc_under_lock(ctx, F)
     elock.run_send_sync(ctx, F)
     efreelist.run(ctx, F)
+    ctx.explain("E-EVENT (gc protocol): a collection may run while other threads operate under the shared manager lock; "
+                "what keeps them apart is the bracket try_lock -> epoch bump -> pre_gc (cache locked) -> level sweeps -> "
+                "terminal sweep -> post_gc (cache unlocked) -> unlock, on every path, in both managers.")
+    eevent.check_manager(ctx, F, "oxidd_manager_index")
+    eevent.check_manager(ctx, F, "oxidd_manager_pointer")
     edm.run(ctx, F)
     st = elin.run(ctx, F, crates=("oxidd_rules_bdd::recursor", "oxidd_rules_zbdd::recursor", "oxidd_manager_index::workers",
                                   "oxidd_manager_pointer::workers"), skip_guard_table=True)
